@@ -73,6 +73,20 @@ def run(run):
     _r4_cleanup(run)
     _r5_pixelization(run)
     _r8_pairing(run)
+    # an input is merged into a shared tile through update_into_maskable_buffer: exactly its defined pixels are copied, per
+    # mode (C15's convention rule) - a defined pixel the merge skips is missing from the tile but present in the pasted mosaic
+    from . import C15 as c15
+
+    def conv(sub):
+        members = c15._enum_members(sub.project)
+        if len(members) >= 8:
+            chains = c15._r1_chains(sub, members)
+            c15._r2_conventions(sub, members, chains)
+    common.delegate(run, "C09.R3", "C15", conv, only_rules={"C15.R2"}, note="premise: merging an input copies exactly its defined pixels")
+    # ... and the tile re-saved after the merge records the range of the pixels it now holds, not the range remembered from
+    # the first input that reached it (C14.R3): "equals tiling the mosaic" includes the DATAMIN / DATAMAX cards
+    from . import C14 as c14
+    common.delegate(run, "C09.R2", "C14", c14._r3_leaves, only_rules={"C14.R3"}, note="premise: a re-saved shared tile records the range of its merged pixels")
     parity.check(run, "C09.R6", skip_classes=("ToastSampler", "TileMerger", "StudyTiling"))
     # flipping an input (image or description) to the tile parity must be the exact reflection decided by C16
     from . import C16 as c16
